@@ -413,6 +413,39 @@ class SimLock:
         return False
 
 
+class SimRLock(SimLock):
+    """threading.RLock stand-in: the owner may acquire again."""
+
+    def __init__(self, world, name="rlock"):
+        super().__init__(world, name)
+        self.depth = 0
+
+    def acquire(self, blocking=True, timeout=-1):
+        me = current_actor() or "setup"
+        if self.owner is me:
+            self.depth += 1
+            return True
+        ok = super().acquire(blocking, timeout)
+        if ok:
+            self.depth = 1
+        return ok
+
+    def release(self):
+        if self.owner is None:
+            raise RuntimeError("cannot release un-acquired lock")
+        self.depth -= 1
+        if self.depth == 0:
+            super().release()
+
+    def __exit__(self, *exc):
+        if self.world._abort:
+            self.owner = None
+            self.depth = 0
+            return False
+        self.release()
+        return False
+
+
 class SimEvent:
     def __init__(self, world, name="event"):
         self.world = world
@@ -527,6 +560,9 @@ class ThreadingShim:
 
     def Lock(self):
         return SimLock(self._world, "tlock")
+
+    def RLock(self):
+        return SimRLock(self._world, "trlock")
 
     def __getattr__(self, name):
         return getattr(self._t, name)
